@@ -157,27 +157,24 @@ theorem swapRemove_not_mem (es : List (Nat × Int)) (d : Nat) (hd : d ∉ keys e
 /-! ## best-node selection -/
 
 theorem minEntry_spec (es : List (Nat × Int)) : ∀ (md : Option Nat) (ml : Int),
-    (minEntry es (md, ml) = (md, ml) ∧ ∀ e ∈ es, ml ≤ e.2) ∨
-    (∃ e ∈ es, minEntry es (md, ml) = (some e.1, e.2) ∧ e.2 < ml) := by
+    (minEntry es (md, ml) = (md, ml) ∧ (md = none → es = [])) ∨
+    (∃ e ∈ es, minEntry es (md, ml) = (some e.1, e.2)) := by
   induction es with
   | nil => intro md ml; left; simp [minEntry]
   | cons e es ih =>
     intro md ml
     obtain ⟨d, l⟩ := e
     unfold minEntry
-    by_cases h : l < ml
+    by_cases h : (md.isNone || decide (l < ml)) = true
     · simp only [h, if_true]
-      rcases ih (some d) l with ⟨h1, h2⟩ | ⟨e, he, h1, h2⟩
-      · right; exact ⟨(d, l), List.mem_cons_self, h1, h⟩
-      · right; exact ⟨e, List.mem_cons_of_mem _ he, h1, by omega⟩
-    · simp only [h, if_false]
-      rcases ih md ml with ⟨h1, h2⟩ | ⟨e, he, h1, h2⟩
-      · left; refine ⟨h1, ?_⟩
-        intro e he
-        rcases List.mem_cons.mp he with rfl | he
-        · simp only; omega
-        · exact h2 e he
-      · right; exact ⟨e, List.mem_cons_of_mem _ he, h1, h2⟩
+      rcases ih (some d) l with ⟨h1, _⟩ | ⟨e, he, h1⟩
+      · right; exact ⟨(d, l), List.mem_cons_self, h1⟩
+      · right; exact ⟨e, List.mem_cons_of_mem _ he, h1⟩
+    · simp only [h]
+      have hmd : md ≠ none := by intro hm; apply h; simp [hm]
+      rcases ih md ml with ⟨h1, _⟩ | ⟨e, he, h1⟩
+      · left; exact ⟨h1, fun hm => absurd hm hmd⟩
+      · right; exact ⟨e, List.mem_cons_of_mem _ he, h1⟩
 
 /-- callback option for a change of "has a best node" -/
 def edgeOpt (b b' : Bool) : Option Bool := if b = b' then none else some b'
@@ -299,28 +296,17 @@ structure CoreInv (s : ASet) : Prop where
   nodup : (keys s.entries).Nodup
   minMem : ∀ m, s.minD = some m → m ∈ keys s.entries
   minNone : s.minD = none → s.minLat = hour
-  small : ∀ e ∈ s.entries, e.2 < hour
   sel : s.minPolicy = true → (s.minD = none ↔ s.entries = [])
   nonMin : s.minPolicy = false → s.minD = none
 
-/-- the latency a set reads is below the one-hour sentinel by at least the tolerance -/
-def LatOK (s : ASet) (d : Nat) (lat : Option Int) : Prop :=
-  ∀ raw, lat = some raw → raw + s.offset d < hour ∧ raw + s.offset d ≤ hour - s.tol
-
-theorem calcMin_none (s : ASet) (h : s.minD = none) (hs : ∀ e ∈ s.entries, e.2 < hour) :
+theorem calcMin_none (s : ASet) (h : s.minD = none) :
     (s.calcMin.minD = none ↔ s.entries = []) ∧ (s.calcMin.minD = none → s.calcMin.minLat = hour) ∧
     (∀ m, s.calcMin.minD = some m → m ∈ keys s.entries) := by
   unfold ASet.calcMin
   simp only [h, if_true, setMin_minD, setMin_minLat]
-  rcases minEntry_spec s.entries none hour with ⟨h1, h2⟩ | ⟨e, he, h1, h2⟩
+  rcases minEntry_spec s.entries none hour with ⟨h1, h2⟩ | ⟨e, he, h1⟩
   · rw [h1]
-    have : s.entries = [] := by
-      cases hes : s.entries with
-      | nil => rfl
-      | cons e es =>
-        have := h2 e (hes ▸ List.mem_cons_self)
-        have := hs e (hes ▸ List.mem_cons_self)
-        omega
+    have : s.entries = [] := h2 rfl
     simp [this]
   · rw [h1]
     refine ⟨?_, by simp, ?_⟩
@@ -338,7 +324,7 @@ theorem calcMin_some (s : ASet) (m : Nat) (h : s.minD = some m) :
   split
   · rename_i hc
     simp only [Bool.and_eq_true] at hc
-    rcases minEntry_spec s.entries none hour with ⟨h1, _⟩ | ⟨e, he, h1, _⟩
+    rcases minEntry_spec s.entries none hour with ⟨h1, _⟩ | ⟨e, he, h1⟩
     · rw [h1] at hc; simp at hc
     · right; exact ⟨e, he, by rw [h1]; rfl⟩
   · left; exact h
@@ -351,34 +337,15 @@ theorem phase2_keys (s : ASet) (d : Nat) (a : Bool) (lat : Option Int) :
   | none => simp only; split <;> rfl
   | some raw => simp only [reselect_entries, setEntryLat_entries, keys_setLat]
 
-theorem phase2_small (s : ASet) (d : Nat) (a : Bool) (lat : Option Int) (hs : ∀ e ∈ s.entries, e.2 < hour)
-    (hl : LatOK s d lat) : ∀ e ∈ (s.phase2 d a lat).1.entries, e.2 < hour := by
-  unfold ASet.phase2
-  cases lat with
-  | none => simp only; split <;> exact hs
-  | some raw =>
-    simp only [reselect_entries, setEntryLat_entries]
-    intro e he
-    rcases mem_setLat _ _ _ _ he with h | h
-    · exact hs e h
-    · rw [h]; exact (hl raw rfl).1
-
 /-- alive notification, after the membership step: `d` is a member; `sel` may be pending -/
 structure PreAlive (s : ASet) (d : Nat) : Prop where
   nodup : (keys s.entries).Nodup
   minMem : ∀ m, s.minD = some m → m ∈ keys s.entries
   minNone : s.minD = none → s.minLat = hour
-  small : ∀ e ∈ s.entries, e.2 < hour
   nonMin : s.minPolicy = false → s.minD = none
   memd : d ∈ keys s.entries
 
-theorem better_of_latOK (s : ASet) (l : Int) (h1 : l < hour) (h2 : l ≤ hour - s.tol) (hm : s.minLat = hour) :
-    s.better l = true := by
-  unfold ASet.better
-  simp only [hm, Bool.and_eq_true, Bool.or_eq_true, decide_eq_true_eq]
-  omega
-
-theorem phase2_alive (s : ASet) (d : Nat) (lat : Option Int) (h : PreAlive s d) (hl : LatOK s d lat)
+theorem phase2_alive (s : ASet) (d : Nat) (lat : Option Int) (h : PreAlive s d)
     (hp : lat.isSome = true → s.minPolicy = true) : CoreInv (s.phase2 d true lat).1 := by
   have hst := phase2_static s d true lat
   have hk := phase2_keys s d true lat
@@ -404,7 +371,6 @@ theorem phase2_alive (s : ASet) (d : Nat) (lat : Option Int) (h : PreAlive s d) 
         · have := hc hmp; exact absurd hn (by simpa using this)
     | some raw =>
       have hmp : s.minPolicy = true := hp rfl
-      obtain ⟨hl1, hl2⟩ := hl raw rfl
       simp only
       generalize hL : raw + s.offset d = l at *
       unfold ASet.reselect
@@ -433,11 +399,10 @@ theorem phase2_alive (s : ASet) (d : Nat) (lat : Option Int) (h : PreAlive s d) 
           refine ⟨?_, h.minMem⟩
           intro hn
           exfalso
-          have hb' : (s.setEntryLat d l).better l = true :=
-            better_of_latOK _ l hl1 hl2 (by simpa using h.minNone hn)
-          exact hb hb'
+          apply hb
+          simp [hn]
   obtain ⟨_, _, _, hpol, _, _, _, _⟩ := hst
-  refine ⟨hk ▸ h.nodup, ?_, ?_, phase2_small s d true lat h.small hl, ?_, ?_⟩
+  refine ⟨hk ▸ h.nodup, ?_, ?_, ?_, ?_⟩
   · intro m hm; rw [hk]; exact hmin.2 m hm
   · intro hn
     have := hmin.1 hn
@@ -472,7 +437,6 @@ still point at `d` (then a latency is present and the selection step repairs it)
 structure PreDead (s : ASet) (d : Nat) (lat : Option Int) : Prop where
   nodup : (keys s.entries).Nodup
   minNone : s.minD = none → s.minLat = hour
-  small : ∀ e ∈ s.entries, e.2 < hour
   nonMin : s.minPolicy = false → s.minD = none
   notmem : d ∉ keys s.entries
   minMem : ∀ m, s.minD = some m → m ≠ d → m ∈ keys s.entries
@@ -480,7 +444,7 @@ structure PreDead (s : ASet) (d : Nat) (lat : Option Int) : Prop where
   sel : s.minPolicy = true → s.minD = none → s.entries = []
   sel' : s.minPolicy = true → s.entries = [] → s.minD = none ∨ s.minD = some d
 
-theorem phase2_dead (s : ASet) (d : Nat) (lat : Option Int) (h : PreDead s d lat) (hl : LatOK s d lat)
+theorem phase2_dead (s : ASet) (d : Nat) (lat : Option Int) (h : PreDead s d lat)
     (hp : lat.isSome = true → s.minPolicy = true) : CoreInv (s.phase2 d false lat).1 := by
   have hst := phase2_static s d false lat
   have hk := phase2_keys s d false lat
@@ -490,7 +454,7 @@ theorem phase2_dead (s : ASet) (d : Nat) (lat : Option Int) (h : PreDead s d lat
     have hnd : s.minD ≠ some d := fun hd => by simpa using h.pend hd
     have he : (s.phase2 d false none).1 = s := by unfold ASet.phase2; simp
     rw [he]
-    refine ⟨h.nodup, ?_, h.minNone, h.small, ?_, h.nonMin⟩
+    refine ⟨h.nodup, ?_, h.minNone, ?_, h.nonMin⟩
     · intro m hm; exact h.minMem m hm (fun hmd => hnd (hmd ▸ hm))
     · intro hmp
       refine ⟨h.sel hmp, fun h0 => ?_⟩
@@ -499,8 +463,6 @@ theorem phase2_dead (s : ASet) (d : Nat) (lat : Option Int) (h : PreDead s d lat
       · exact absurd h1 hnd
   | some raw =>
     have hmp : s.minPolicy = true := hp rfl
-    obtain ⟨hl1, hl2⟩ := hl raw rfl
-    have hsm := phase2_small s d false (some raw) h.small hl
     have hEnt : (s.phase2 d false (some raw)).1.entries = setLat s.entries d (raw + s.offset d) := by
       unfold ASet.phase2; simp only [reselect_entries, setEntryLat_entries]
     have hEmpty : (s.phase2 d false (some raw)).1.entries = [] ↔ s.entries = [] := by
@@ -511,16 +473,9 @@ theorem phase2_dead (s : ASet) (d : Nat) (lat : Option Int) (h : PreDead s d lat
           ((s.setEntryLat d (raw + s.offset d)).setMin none (raw + s.offset d)).calcMin := by
         unfold ASet.phase2 ASet.reselect
         simp [hd]
-      have hsm' : ∀ e ∈ ((s.setEntryLat d (raw + s.offset d)).setMin none (raw + s.offset d)).entries,
-          e.2 < hour := by
-        intro e he'
-        simp only [setMin_entries, setEntryLat_entries] at he'
-        rcases mem_setLat _ _ _ _ he' with h' | h'
-        · exact h.small e h'
-        · rw [h']; exact hl1
-      obtain ⟨c1, c2, c3⟩ := calcMin_none _ (setMin_minD _ _ _) hsm'
+      obtain ⟨c1, c2, c3⟩ := calcMin_none _ (setMin_minD _ _ _)
       rw [← he] at c1 c2 c3
-      refine ⟨hk ▸ h.nodup, ?_, c2, hsm, ?_, ?_⟩
+      refine ⟨hk ▸ h.nodup, ?_, c2, ?_, ?_⟩
       · intro m hm
         have := c3 m hm
         simp only [setMin_entries, setEntryLat_entries, keys_setLat] at this
@@ -533,7 +488,7 @@ theorem phase2_dead (s : ASet) (d : Nat) (lat : Option Int) (h : PreDead s d lat
           (s.phase2 d false (some raw)).1.minLat = s.minLat := by
         unfold ASet.phase2 ASet.reselect
         simp [hd]
-      refine ⟨hk ▸ h.nodup, ?_, ?_, hsm, ?_, ?_⟩
+      refine ⟨hk ▸ h.nodup, ?_, ?_, ?_, ?_⟩
       · intro m hm; rw [he.1] at hm; rw [hk]
         exact h.minMem m hm (fun hmd => hd (hmd ▸ hm))
       · intro hn; rw [he.1] at hn; rw [he.2]; exact h.minNone hn
@@ -575,7 +530,7 @@ theorem phase1_alive (s : ASet) (d : Nat) (lat : Option Int) (h : CoreInv s) :
   unfold ASet.phase1 at hk ⊢
   cases hh : s.has d <;> simp only [hh, Bool.false_eq_true, if_false, if_true] at hk ⊢
   · rw [has_false_iff] at hh
-    refine ⟨?_, ?_, h.minNone, ?_, h.nonMin, ?_⟩
+    refine ⟨?_, ?_, h.minNone, h.nonMin, ?_⟩
     · simp only [add_entries, keys_append_single]
       rw [List.nodup_append]
       refine ⟨h.nodup, by simp, ?_⟩
@@ -586,39 +541,32 @@ theorem phase1_alive (s : ASet) (d : Nat) (lat : Option Int) (h : CoreInv s) :
       simp only [add_minD] at hm
       simp only [add_entries, keys_append_single, List.mem_append]
       left; exact h.minMem m hm
-    · intro e he
-      simp only [add_entries, List.mem_append, List.mem_singleton] at he
-      rcases he with he | he
-      · exact h.small e he
-      · rw [he]; show (0 : Int) < hour; decide
     · simp only [add_entries, keys_append_single, List.mem_append, List.mem_singleton, or_true]
   · rw [has_iff] at hh
-    exact ⟨h.nodup, h.minMem, h.minNone, h.small, h.nonMin, hh⟩
+    exact ⟨h.nodup, h.minMem, h.minNone, h.nonMin, hh⟩
 
 theorem phase1_dead (s : ASet) (d : Nat) (lat : Option Int) (h : CoreInv s)
     (_hp : lat.isSome = true → s.minPolicy = true) : PreDead (s.phase1 d false lat).1 d lat := by
   unfold ASet.phase1
   cases hh : s.has d <;> simp only [Bool.false_eq_true, if_false, if_true]
   · rw [has_false_iff] at hh
-    refine ⟨h.nodup, h.minNone, h.small, h.nonMin, hh, fun m hm _ => h.minMem m hm, ?_, ?_, ?_⟩
+    refine ⟨h.nodup, h.minNone, h.nonMin, hh, fun m hm _ => h.minMem m hm, ?_, ?_, ?_⟩
     · intro hd; exact absurd (h.minMem d hd) hh
     · intro hmp hn; exact (h.sel hmp).mp hn
     · intro hmp h0; left; exact (h.sel hmp).mpr h0
   · rw [has_iff] at hh
     obtain ⟨sp1, sp2, sp3, sp4⟩ := swapRemove_spec s.entries d h.nodup hh
     have hnot : d ∉ keys (swapRemove s.entries d) := by rw [sp2]; simp
-    have hsm : ∀ e ∈ swapRemove s.entries d, e.2 < hour := fun e he => h.small e (sp3 e he)
     split
     · rename_i hrb
       simp only [Bool.and_eq_true, beq_iff_eq, Option.isNone_iff_eq_none] at hrb
       obtain ⟨c1, c2, c3⟩ := calcMin_none ((s.remove d).setMin none hour) rfl
-        (by simpa using hsm)
       simp only [setMin_entries, remove_entries] at c1 c3
       have hE : (((s.remove d).setMin none hour).calcMin).entries = swapRemove s.entries d := by
         rw [calcMin_entries]; rfl
       have hpol : (((s.remove d).setMin none hour).calcMin).minPolicy = s.minPolicy :=
         (calcMin_static _).2.2.2.1
-      refine ⟨hE ▸ sp1, c2, hE ▸ hsm, ?_, hE ▸ hnot, ?_, ?_, ?_, ?_⟩
+      refine ⟨hE ▸ sp1, c2, ?_, hE ▸ hnot, ?_, ?_, ?_, ?_⟩
       · intro hf; rw [hpol] at hf; rw [hrb.1.1] at hf; exact absurd hf (by simp)
       · intro m hm _; rw [hE]; exact c3 m hm
       · intro hd; exact absurd (c3 d hd) hnot
@@ -626,7 +574,7 @@ theorem phase1_dead (s : ASet) (d : Nat) (lat : Option Int) (h : CoreInv s)
       · intro _ h0; left; rw [hE] at h0; exact c1.mpr h0
     · rename_i hrb
       simp only [Bool.and_eq_true, beq_iff_eq, Option.isNone_iff_eq_none, not_and] at hrb
-      refine ⟨sp1, h.minNone, hsm, h.nonMin, hnot, ?_, ?_, ?_, ?_⟩
+      refine ⟨sp1, h.minNone, h.nonMin, hnot, ?_, ?_, ?_, ?_⟩
       · intro m hm hmd
         simp only [remove_minD] at hm
         simp only [remove_entries]; rw [sp2]; exact ⟨h.minMem m hm, hmd⟩
@@ -695,7 +643,7 @@ theorem phase2_ghost (s : ASet) (d : Nat) (a : Bool) (lat : Option Int) : s.same
 theorem coreInv_fire (s : ASet) (c : Option Bool) (h : CoreInv s) : CoreInv (s.fire c) := by
   cases c with
   | none => exact h
-  | some b => exact ⟨h.nodup, h.minMem, h.minNone, h.small, h.sel, h.nonMin⟩
+  | some b => exact ⟨h.nodup, h.minMem, h.minNone, h.sel, h.nonMin⟩
 
 /-- the latency actually consulted by a notification -/
 def ASet.effLat (s : ASet) (lat : Option Int) : Option Int := if s.minPolicy then lat else none
@@ -706,21 +654,15 @@ theorem notify_eq (s : ASet) (d : Nat) (a : Bool) (lat : Option Int) :
           ((s.phase1 d a (s.effLat lat)).1.phase2 d a (s.effLat lat)).2,
         (s.phase1 d a (s.effLat lat)).2.toList ++ ((s.phase1 d a (s.effLat lat)).1.phase2 d a (s.effLat lat)).2.toList) := rfl
 
-theorem notify_core (s : ASet) (d : Nat) (a : Bool) (lat : Option Int) (h : CoreInv s) (hl : LatOK s d lat) :
+theorem notify_core (s : ASet) (d : Nat) (a : Bool) (lat : Option Int) (h : CoreInv s) :
     CoreInv (s.notify d a lat).1 ∧
     (∀ x, x ∈ keys (s.notify d a lat).1.entries ↔ if x = d then a = true else x ∈ keys s.entries) := by
   rw [notify_eq]
   have hp : (s.effLat lat).isSome = true → s.minPolicy = true := by
     unfold ASet.effLat; cases s.minPolicy <;> simp
-  have hl' : LatOK s d (s.effLat lat) := by
-    unfold ASet.effLat; split
-    · exact hl
-    · intro raw hr; simp at hr
   generalize s.effLat lat = lat' at *
   have hst := phase1_static s d a lat'
   obtain ⟨_, _, _, hpol, htol, _, hoff, _⟩ := hst
-  have hl1 : LatOK (s.phase1 d a lat').1 d lat' := by
-    intro raw hr; rw [hoff, htol]; exact hl' raw hr
   have hp1 : lat'.isSome = true → (s.phase1 d a lat').1.minPolicy = true := by
     rw [hpol]; exact hp
   have hk1 := phase1_keys s d a lat' h.nodup
@@ -728,16 +670,16 @@ theorem notify_core (s : ASet) (d : Nat) (a : Bool) (lat : Option Int) (h : Core
   simp only [fire_entries]
   refine ⟨coreInv_fire _ _ (coreInv_fire _ _ ?_), ?_⟩
   · cases a
-    · exact phase2_dead _ d lat' (phase1_dead s d lat' h hp) hl1 hp1
-    · exact phase2_alive _ d lat' (phase1_alive s d lat' h) hl1 hp1
+    · exact phase2_dead _ d lat' (phase1_dead s d lat' h hp) hp1
+    · exact phase2_alive _ d lat' (phase1_alive s d lat' h) hp1
   · intro x; rw [hk2]; exact hk1 x
 
 structure SetInv (s : ASet) : Prop extends CoreInv s where
   bit : s.minPolicy = true → (s.entries ≠ [] → s.kbit = true) ∧ (s.entries = [] → s.kbit = false ∨ s.ncb = 0)
 
-theorem notify_inv (s : ASet) (d : Nat) (a : Bool) (lat : Option Int) (h : SetInv s) (hl : LatOK s d lat) :
+theorem notify_inv (s : ASet) (d : Nat) (a : Bool) (lat : Option Int) (h : SetInv s) :
     SetInv (s.notify d a lat).1 := by
-  obtain ⟨hc, _⟩ := notify_core s d a lat h.toCoreInv hl
+  obtain ⟨hc, _⟩ := notify_core s d a lat h.toCoreInv
   refine ⟨hc, ?_⟩
   intro hmp
   have hst := notify_static s d a lat
@@ -814,10 +756,10 @@ theorem notify_nonmin_silent (s : ASet) (d : Nat) (a : Bool) (lat : Option Int) 
 
 /-- For a latency-policy set satisfying the invariant, the callbacks of one notification are
 exactly the edges of "the set is non-empty". -/
-theorem notify_replay (s : ASet) (d : Nat) (a : Bool) (lat : Option Int) (h : SetInv s) (hl : LatOK s d lat)
+theorem notify_replay (s : ASet) (d : Nat) (a : Bool) (lat : Option Int) (h : SetInv s)
     (hmp : s.minPolicy = true) :
     replay (!s.entries.isEmpty) (s.notify d a lat).2 = some (!(s.notify d a lat).1.entries.isEmpty) := by
-  have h2 := notify_inv s d a lat h hl
+  have h2 := notify_inv s d a lat h
   have hmp2 : (s.notify d a lat).1.minPolicy = true := by rw [(notify_static s d a lat).2.2.2.1]; exact hmp
   have e0 : (!s.entries.isEmpty) = s.minD.isSome := by
     have := h.sel hmp
@@ -827,42 +769,11 @@ theorem notify_replay (s : ASet) (d : Nat) (a : Bool) (lat : Option Int) (h : Se
     cases hm : (s.notify d a lat).1.minD <;> cases he : (s.notify d a lat).1.entries <;> simp_all
   rw [e0, e2]; exact notify_replay_min s d a lat
 
-/-! ## bounded worlds: the oracle hypothesis -/
-
-/-- ten minutes -/
-def slack : Int := 600000000000
-
-def ASet.Bounded (s : ASet) : Prop := s.tol ≤ slack ∧ ∀ d, s.offset d ≤ slack
-
-def Oracle.Small (o : Oracle) : Prop := ∀ e ∈ o, e.2 < hour - 2 * slack
-
-theorem oracle_get_small (o : Oracle) (g i n : Nat) (raw : Int) (ho : o.Small) (h : o.get g i n = some raw) :
-    raw < hour - 2 * slack := by
-  unfold Oracle.get at h
-  split at h
-  · rename_i e he
-    simp only [Option.some.injEq] at h
-    rw [← h]; exact ho e (List.mem_of_find?_eq_some he)
-  · simp at h
-
-theorem latOK_of_bounded (s : ASet) (d : Nat) (o : Oracle) (hb : s.Bounded) (ho : o.Small) :
-    LatOK s d (o.get s.gid s.idx d) := by
-  intro raw hr
-  have := oracle_get_small o _ _ _ raw ho hr
-  have h1 := hb.1
-  have h2 := hb.2 d
-  unfold slack hour at *
-  omega
-
 /-- the per-set invariant carried by every reachable world -/
-def GoodSet (s : ASet) : Prop := SetInv s ∧ s.Bounded
+def GoodSet (s : ASet) : Prop := SetInv s
 
-theorem goodSet_notify (s : ASet) (d : Nat) (a : Bool) (o : Oracle) (ho : o.Small) (h : GoodSet s) :
-    GoodSet (s.notify d a (o.get s.gid s.idx d)).1 := by
-  refine ⟨notify_inv s d a _ h.1 (latOK_of_bounded s d o h.2 ho), ?_⟩
-  obtain ⟨_, _, _, _, htol, _, hoff, _⟩ := notify_static s d a (o.get s.gid s.idx d)
-  unfold ASet.Bounded; rw [htol, hoff]; exact h.2
-
+theorem goodSet_notify (s : ASet) (d : Nat) (a : Bool) (o : Oracle) (h : GoodSet s) :
+    GoodSet (s.notify d a (o.get s.gid s.idx d)).1 := notify_inv s d a _ h
 
 /-! ## world level: a per-set property preserved by notifications is preserved by every event -/
 
@@ -961,19 +872,8 @@ theorem floorFrom_pres (hP : NotifyStable P o) (ts : List Typ) (w : World) (g : 
 end pres
 
 
-def Event.oracle : Event → Oracle
-  | .group _ _ _ _ _ o | .probe _ _ _ _ o | .txn _ _ _ o | .tfail _ _ _ o | .forced _ _ o | .tok _ _ o
-  | .inherit _ _ o | .restore _ _ o | .floor _ _ o => o
-  | _ => []
-
-/-- the event's latency inputs (and, for a new group, its tolerance and offsets) are far below the
-one-hour sentinel -/
-def Event.OK : Event → Prop
-  | .group _ _ _ tol ms o => o.Small ∧ tol ≤ slack ∧ ∀ m ∈ ms, m.2 ≤ slack
-  | e => e.oracle.Small
-
-theorem goodSet_stable (o : Oracle) (ho : o.Small) : NotifyStable GoodSet o :=
-  fun s d a h => goodSet_notify s d a o ho h
+theorem goodSet_stable (o : Oracle) : NotifyStable GoodSet o :=
+  fun s d a h => goodSet_notify s d a o h
 
 theorem notifyEach_pres (P : ASet → Prop) (o : Oracle) (hP : NotifyStable P o) (alive : Nat → Bool) (ds : List Nat) :
     ∀ s, P s → P (notifyEach s alive o ds).1 := by
@@ -981,60 +881,51 @@ theorem notifyEach_pres (P : ASet → Prop) (o : Oracle) (hP : NotifyStable P o)
   | nil => intro s h; exact h
   | cons d ds ih => intro s h; exact ih _ (hP s d (alive d) h)
 
-theorem goodSet_fresh (g ob : Nat) (p : Policy) (tol : Int) (ms : List (Nat × Int)) (t : Typ)
-    (htol : tol ≤ slack) (hms : ∀ m ∈ ms, m.2 ≤ slack) :
+theorem goodSet_fresh (g ob : Nat) (p : Policy) (tol : Int) (ms : List (Nat × Int)) (t : Typ) :
     GoodSet ⟨g, ob, t.idx, p.isMin, tol, ms.map (·.1),
-      (fun d => match ms.find? fun e => e.1 == d with | some e => e.2 | none => 0), false, [], none, hour, true, 0⟩ := by
-  refine ⟨⟨⟨by simp [keys], by simp, by simp, by simp, by simp, by simp⟩, by simp⟩, htol, ?_⟩
-  intro d
-  simp only
-  split
-  · rename_i e he; exact hms e (List.mem_of_find?_eq_some he)
-  · unfold slack; omega
+      (fun d => match ms.find? fun e => e.1 == d with | some e => e.2 | none => 0), false, [], none, hour, true, 0⟩ :=
+  ⟨⟨by simp [keys], by simp, by simp, by simp, by simp⟩, by simp⟩
 
 theorem goodSet_active (s : ASet) (b : Bool) (h : GoodSet s) : GoodSet { s with active := b } :=
-  ⟨⟨⟨h.1.nodup, h.1.minMem, h.1.minNone, h.1.small, h.1.sel, h.1.nonMin⟩, h.1.bit⟩, h.2⟩
+  ⟨⟨h.nodup, h.minMem, h.minNone, h.sel, h.nonMin⟩, h.bit⟩
 
 theorem goodSet_init (s : ASet) (h : GoodSet s) : GoodSet { s with kbit := true, ncb := 0 } := by
-  refine ⟨⟨⟨h.1.nodup, h.1.minMem, h.1.minNone, h.1.small, h.1.sel, h.1.nonMin⟩, ?_⟩, h.2⟩
+  refine ⟨⟨h.nodup, h.minMem, h.minNone, h.sel, h.nonMin⟩, ?_⟩
   intro _; exact ⟨fun _ => rfl, fun _ => Or.inr rfl⟩
 
-theorem newSet_good (w : World) (g ob : Nat) (p : Policy) (tol : Int) (ms : List (Nat × Int)) (o : Oracle) (t : Typ)
-    (ho : o.Small) (htol : tol ≤ slack) (hms : ∀ m ∈ ms, m.2 ≤ slack) :
+theorem newSet_good (w : World) (g ob : Nat) (p : Policy) (tol : Int) (ms : List (Nat × Int)) (o : Oracle) (t : Typ) :
     GoodSet (newSet w g ob p tol ms o t).1 := by
   unfold newSet
   simp only
   apply goodSet_active
-  apply notifyEach_pres GoodSet o (goodSet_stable o ho)
-  apply notifyEach_pres GoodSet o (goodSet_stable o ho)
-  exact goodSet_fresh g ob p tol ms t htol hms
+  apply notifyEach_pres GoodSet o (goodSet_stable o)
+  apply notifyEach_pres GoodSet o (goodSet_stable o)
+  exact goodSet_fresh g ob p tol ms t
 
 theorem newSets_good (w : World) (g ob : Nat) (p : Policy) (tol : Int) (ms : List (Nat × Int)) (o : Oracle)
-    (ho : o.Small) (htol : tol ≤ slack) (hms : ∀ m ∈ ms, m.2 ≤ slack) (ts : List Typ) :
-    ∀ s ∈ (newSets w g ob p tol ms o ts).1, GoodSet s := by
+    (ts : List Typ) : ∀ s ∈ (newSets w g ob p tol ms o ts).1, GoodSet s := by
   induction ts with
   | nil => intro s hs; simp [newSets] at hs
   | cons t ts ih =>
     intro s hs
     simp only [newSets, List.mem_cons] at hs
     rcases hs with rfl | hs
-    · exact newSet_good w g ob p tol ms o t ho htol hms
+    · exact newSet_good w g ob p tol ms o t
     · exact ih s hs
 
-theorem step_good (w : World) (e : Event) (he : e.OK) (h : SetsAll GoodSet w) : SetsAll GoodSet (step w e).1 := by
+theorem step_good (w : World) (e : Event) (h : SetsAll GoodSet w) : SetsAll GoodSet (step w e).1 := by
   cases e with
   | node n a => simp only [step]; split <;> exact h
   | group g ob p tol ms o =>
     simp only [step]; split
     · exact h
-    · obtain ⟨ho, htol, hms⟩ := he
-      intro s hs
+    · intro s hs
       simp only [newGroup, List.mem_append, List.mem_map] at hs
       rcases hs with hs | ⟨s', hs', rfl⟩
       · exact h s hs
       · apply goodSet_init
         split at hs'
-        · exact newSets_good w g ob p tol ms o ho htol hms _ s' hs'
+        · exact newSets_good w g ob p tol ms o _ s' hs'
         · simp at hs'
   | close g =>
     intro s hs
@@ -1045,19 +936,19 @@ theorem step_good (w : World) (e : Event) (he : e.OK) (h : SetsAll GoodSet w) : 
     · exact h s' hs'
   | probe n t a1 a2 o =>
     simp only [step]; split
-    · exact markAvail_pres GoodSet o (goodSet_stable o he) _ n t h
-    · exact markUnavail_pres GoodSet o (goodSet_stable o he) w n t false h
+    · exact markAvail_pres GoodSet o (goodSet_stable o) _ n t h
+    · exact markUnavail_pres GoodSet o (goodSet_stable o) w n t false h
     · exact h
   | txn n t ign o =>
     simp only [step]; split
     · exact h
-    · exact markUnavail_pres GoodSet o (goodSet_stable o he) w n t false h
+    · exact markUnavail_pres GoodSet o (goodSet_stable o) w n t false h
   | tfail n t ign o =>
     simp only [step]; split
     · exact h
-    · exact markUnavail_pres GoodSet o (goodSet_stable o he) w n t true h
-  | forced n t o => exact markForced_pres GoodSet o (goodSet_stable o he) w n t h
-  | tok n t o => exact trafficOk_pres GoodSet o (goodSet_stable o he) w n t h
+    · exact markUnavail_pres GoodSet o (goodSet_stable o) w n t true h
+  | forced n t o => exact markForced_pres GoodSet o (goodSet_stable o) w n t h
+  | tok n t o => exact trafficOk_pres GoodSet o (goodSet_stable o) w n t h
   | sbegin => exact h
   | send =>
     simp only [step]; split
@@ -1065,17 +956,14 @@ theorem step_good (w : World) (e : Event) (he : e.OK) (h : SetsAll GoodSet w) : 
     · split <;> exact h
   | tick d => exact h
   | resetGlobal => exact h
-  | inherit n m o => exact restoreFrom_pres GoodSet o (goodSet_stable o he) _ w n _ h
-  | restore n s o => exact restoreFrom_pres GoodSet o (goodSet_stable o he) _ w n s h
-  | floor g fb o => exact floorFrom_pres GoodSet o (goodSet_stable o he) _ w g fb h
+  | inherit n m o => exact restoreFrom_pres GoodSet o (goodSet_stable o) _ w n _ h
+  | restore n s o => exact restoreFrom_pres GoodSet o (goodSet_stable o) _ w n s h
+  | floor g fb o => exact floorFrom_pres GoodSet o (goodSet_stable o) _ w g fb h
 
-theorem run_good (es : List Event) : ∀ (w : World), (∀ e ∈ es, e.OK) → SetsAll GoodSet w →
-    SetsAll GoodSet (run w es).1 := by
+theorem run_good (es : List Event) : ∀ (w : World), SetsAll GoodSet w → SetsAll GoodSet (run w es).1 := by
   induction es with
-  | nil => intro w _ h; exact h
-  | cons e es ih =>
-    intro w he h
-    exact ih _ (fun e' he' => he e' (List.mem_cons_of_mem _ he')) (step_good w e (he e List.mem_cons_self) h)
+  | nil => intro w h; exact h
+  | cons e es ih => intro w h; exact ih _ (step_good w e h)
 
 
 /-! ## node maps after each primitive -/
